@@ -122,6 +122,22 @@ def check(prop, tier, threads, mc_cfg, gen_cfg, split, maxlen, walks, walk_len, 
             rep.violation(_signature(labels, m), {
                 "kind": "runtime", "threads": threads, "types": TYPES,
                 "init_defaults": INIT_DEFAULTS, "labels": labels[: m["step"] + 1], "mismatch": m})
+        # code -> spec: random executions beyond the exhaustive bounds (more runtime objects, deeper
+        # nesting, longer histories), recorded from the real code and validated by TLC
+        from . import rt_record
+
+        import_labrea()
+        import labrea.runtime as rt
+
+        ntr = 1500 if tier == "quick" else 20000
+        rec = rt_record.record_many(rt, SEED, prop, ntr, list(threads), 30)
+        nval, rejected, tres = rt_record.validate(rec, sc)
+        for idx, line in rejected:
+            tr = rec[idx][:line]
+            rep.violation({"trace": [{k: v for k, v in e.items() if k != "res"} for e in tr],
+                           "observed": tr[-1].get("res", tr[-1].get("exc"))},
+                          {"kind": "rt-trace", "threads": list(threads), "trace": tr, "rejected_at": line})
+        total += len(rec)
         sample = cover[len(cover) // 2] if cover else []
         code = rep.finish()
         evidence.write(prop, tier, "model_checking", {
@@ -133,6 +149,7 @@ def check(prop, tier, threads, mc_cfg, gen_cfg, split, maxlen, walks, walk_len, 
             "rule": "paths of the TLC-exported abstract state graph of RuntimeMachine (%s): every path of "
                     "length <= %d from the initial state, %d seeded random walks of length %d, and one "
                     "shortest path through every transition; each replayed on labrea.runtime in fresh "
+                    "threads; plus recorded random executions (<= 12 runtime objects, nesting <= 8, 30 operations) validated by TLC against Trace_Runtime; "
                     "threads with fresh Request classes; non-trivial = the path leaves at least one "
                     "entered block (Exit) before a probe" % (gen_cfg, maxlen, walks, walk_len),
             "samples": [[{k: v for k, v in a.items() if k != "srv"} for a in sample],
@@ -144,6 +161,7 @@ def check(prop, tier, threads, mc_cfg, gen_cfg, split, maxlen, walks, walk_len, 
                     "invariants": ["TypeOK", "ServedByTop", "PriorConsistent", "LateDefaultServes"],
                     "action_properties": ["ExitRestores", "DeriveIsPure", "ThreadLocal", "InheritSnapshot"]},
             "mismatching_paths": len(bad),
+            "recorded_traces_validated_by_tlc": len(rec), "recorded_traces_rejected": len(rejected),
             "known_finding_hits": rep.known_hits,
         }, timer.s(), violations=len(rep.violations), assumptions=[
             "TLC 1.8 and the CommunityModules Json override are trusted",
